@@ -3,9 +3,11 @@ package dockerlog
 
 import (
 	"context"
+	"fmt"
 	"slices"
 	"strconv"
 	"strings"
+	"time"
 
 	"github.com/docker/docker/api/types"
 	apicontainer "github.com/docker/docker/api/types/container"
@@ -93,13 +95,20 @@ func (q *Querier) SelectLogs(ctx context.Context, start, end otelstorage.Timesta
 	}
 }
 
+// formatDockerTimestamp renders t the way the daemon takes since/until:
+// "<seconds>.<nanoseconds>". Whole seconds would cut off the records of the
+// last, partial second of the range.
+func formatDockerTimestamp(t time.Time) string {
+	return fmt.Sprintf("%d.%09d", t.Unix(), t.Nanosecond())
+}
+
 func (q *Querier) openLog(ctx context.Context, ctr container, start, end otelstorage.Timestamp) (logiter, error) {
 	var since, until string
 	if t := start.AsTime(); !t.IsZero() {
-		since = strconv.FormatInt(t.Unix(), 10)
+		since = formatDockerTimestamp(t)
 	}
 	if t := end.AsTime(); !t.IsZero() {
-		until = strconv.FormatInt(t.Unix(), 10)
+		until = formatDockerTimestamp(t)
 	}
 
 	rc, err := q.client.ContainerLogs(ctx, ctr.ID, apicontainer.LogsOptions{
